@@ -427,6 +427,7 @@ _R5 = [
     (("C03",), rules5.graphmap_incoming_mirror, 1, None, "no GraphMap method pushes an Incoming adjacency entry without a != b"),
     (("C17", "C03"), rules5.nodes_before_edges, 3, None, "GraphMap::from_graph inserts all nodes (in node order) before any edge"),
     (("C11",), rules5.float_overflow_table, 2, None, "float overflowing_add never reports overflow for operands of opposite sign (sign table)"),
+    (("C05",), rules5.search_contract, 1, None, "Csr::find_edge_pos returns Ok exactly when an inspected element compares Equal (search table over comparison outcomes)"),
 ]
 for _pids, _fn, _floor, _predf, _txt in _R5:
     for _pid in _pids:
